@@ -40,6 +40,8 @@ Frag ==
   @@ "slget"   :> F("Fslget" :> Slice("GslBack"), {}, {})                    \* the source is a getter returning its backing slice
   @@ "slptr"   :> F("Fslptr" :> Slice("Fslptr"), {}, {})                     \* []*int -> []*int (fresh array of the same pointers)
   @@ "slstruct":> F("Fslstruct" :> Slice("Fslstruct"), {}, {})               \* []EN -> []EN
+  @@ "slbyte"  :> F("Fslbyte" :> Slice("Fslbyte"), {}, {})                   \* []byte -> []byte: an empty source gives an empty, allocated destination - not nil
+  @@ "slbtag"  :> F("Fslbtag" :> Slice("Fslbtag"), {}, {})                   \* a defined type over []byte
   @@ "slext"   :> F("Fslext" :> Slice("Fslext"), {}, {})                     \* []vrt.VInt -> []vrt.VInt (element type of an imported package)
   @@ "slextp"  :> F("Fslextp" :> Slice("Fslextp"), {}, {})                   \* []*vrt.VS -> []*vrt.VS
   @@ "slnest"  :> F(("Fsn.L" :> Slice("Fsn.L")) @@ ("Fsn.K" :> Src("Fsn.K")), {}, {})   \* a slice member of a nested by-value struct
